@@ -20,7 +20,8 @@ TECHNIQUE = "writer/reader token-table agreement, complementarity of comprehensi
 CLAIM = ("Decides: the printer's arrows/separators are the tokens the parser splits on; active/inactive term classification "
          "is a partition of the terms; the allowed-key check covers every parsed key and every call forwards the key list; "
          "duplicates accumulate; coefficient/key positions; _all_attr/_cmp_attr agree with the constructor, __eq__, __hash__ and copy; "
-         "printer lays out sides and coefficients in stored order.")
+         "printer lays out sides and coefficients in stored order."
+         ' Arms by token/field count, __eq__ verdicts, coefficient omitted iff exactly 1, skipped lines (R8). Shared rule A1: no swapped same-named arguments at resolved in-package call sites.')
 DOES_NOT_DECIDE = "eval of parameters, numeric precision of printed parameters, round trip of inactive groups (excluded by the statement)"
 ASSUMPTIONS = ["str.split/strip/re.split semantics"]
 
